@@ -20,7 +20,7 @@ def carray(nested):
     return a[..., 0] + 1j * a[..., 1]
 
 
-def core_arrays(cores, fortran=False):
+def core_arrays(cores, fortran=False, dedupe=False):
     out = []
     for c in cores:
         a = carray(c)
@@ -28,6 +28,12 @@ def core_arrays(cores, fortran=False):
             a = np.ascontiguousarray(a.real)
         if fortran:
             a = np.asfortranarray(a)       # same values, column-major storage (e.g. arrays loaded from MATLAB files)
+        # cores that are equal (shape, dtype and values) are ONE array object placed at several positions, as in
+        # TT([x] * d) - fills of kind "rep" produce such trains
+        for b in (out if dedupe else ()):
+            if b.shape == a.shape and b.dtype == a.dtype and np.array_equal(a, b):
+                a = b
+                break
         out.append(a)
     return out
 
@@ -320,7 +326,15 @@ def apply_event(tt_mod, objs, ev):
     if op == 'Diag':
         lst = [_np_int(c, ev) for c in sorted(ev['list'])]
         A.copy().diag(lst)                                          # list argument used twice
-        return res_or_self(A.diag(lst))
+        # the same selection written with negative core indices (counted from the end) and as a tuple
+        alt = A.diag(tuple(int(c) - A.order if k % 2 == 0 else int(c) for k, c in enumerate(sorted(ev['list']))))
+        res = A.diag(lst)
+        if not metadata_problem(res):
+            pm = metadata_problem(alt)
+            if pm or list(alt.col_dims) != list(res.col_dims) or np.max(np.abs(contract(alt.cores) - contract(res.cores))) > 0:
+                raise Mismatch('value', 'diag: the selection given with negative indices / as a tuple differs from the list form (%s)' % (
+                    pm or 'col_dims %r vs %r' % (alt.col_dims, res.col_dims)))
+        return res_or_self(res)
     if op == 'Squeeze':
         return res_or_self(A.squeeze())
     if op in ('OrthoLeft', 'OrthoRight', 'Ortho') and ev.get('dflt', True):
@@ -350,6 +364,8 @@ def apply_event(tt_mod, objs, ev):
             res = A.ortho(max_rank=r)
         if res is not A:
             raise Mismatch('identity', 'ortho*(max_rank) did not return self')
+        if ev['which'] == 'both' and ev.get('val') and len(ev['val'].get('v', [])):
+            check_trunc_error(ev, A, bounds_from_event=False)        # quasi-optimality of ortho(max_rank) on a general train
         return []
     if op == 'IslOrthoTrunc':
         caps = [np.inf if c >= 99 else _np_int(c, ev) for c in ev['caps']]        # INFCAP in the spec
@@ -643,7 +659,7 @@ def _ranks_arg(ev):
     return rk
 
 
-def replay(tt_mod, hist, on_violation, fortran=False):
+def replay(tt_mod, hist, on_violation, fortran=False, dedupe=False):
     """Replay one history.  on_violation(event_index, category, message) is called for the first
     mismatch; returns the number of real API calls performed."""
     TT = tt_mod.TT
@@ -653,7 +669,7 @@ def replay(tt_mod, hist, on_violation, fortran=False):
     for idx, ev in enumerate(hist):
         op = ev['op']
         if op == 'New':
-            objs.append(TT(core_arrays(ev['cores'], fortran=fortran)))
+            objs.append(TT(core_arrays(ev['cores'], fortran=fortran, dedupe=dedupe)))
             exps.append(ev['new'][0])
             continue
         touched = ev.get('touched')
